@@ -1434,10 +1434,10 @@ func (e *executor) executeRowsShard(_ context.Context, index string, fieldName s
 	}
 
 	limit := int(^uint(0) >> 1)
-	if lim, hasLimit, err := c.UintArg("limit"); err != nil {
+	lim, hasLimit, err := c.UintArg("limit")
+	if err != nil {
 		return nil, errors.Wrap(err, "getting limit")
 	} else if hasLimit {
-		filters = append(filters, filterWithLimit(lim))
 		limit = int(lim)
 	}
 
@@ -1447,7 +1447,12 @@ func (e *executor) executeRowsShard(_ context.Context, index string, fieldName s
 			continue
 		}
 
-		viewRows := frag.rows(start, filters...)
+		// The limit filter counts down as it goes: every view needs its own.
+		viewFilters := filters
+		if hasLimit {
+			viewFilters = append(append([]rowFilter{}, filters...), filterWithLimit(lim))
+		}
+		viewRows := frag.rows(start, viewFilters...)
 		rowIDs = rowIDs.merge(viewRows, limit)
 	}
 
